@@ -94,6 +94,39 @@ class Agg:
         self.harness_faults = []
 
 
+def run_group(cmd, env, timeout):
+    """Run a simulator process in its own process group and make sure nothing of the group outlives it (forked copies,
+    the zygote): a straggler would keep the pipes open."""
+    import signal
+    p = subprocess.Popen(cmd, stdout=subprocess.PIPE, stderr=subprocess.PIPE, text=True, errors="replace", env=env, start_new_session=True)
+    try:
+        out, err = p.communicate(timeout=timeout)
+        rc = p.returncode
+    except subprocess.TimeoutExpired:
+        try:
+            os.killpg(p.pid, signal.SIGKILL)
+        except OSError:
+            pass
+        out, err = p.communicate()
+        rc = -9
+    finally:
+        try:
+            os.killpg(p.pid, signal.SIGKILL)
+        except OSError:
+            pass
+    return out or "", err or "", rc
+
+
+class _Done:
+    def __init__(self, out, err, rc):
+        self.stdout, self.stderr, self.returncode = out, err, rc
+
+
+def run_cmd(cmd, timeout=1500):
+    env = dict(os.environ, ASAN_OPTIONS="exitcode=77:detect_leaks=0:allocator_may_return_null=1")
+    return _Done(*run_group(cmd, env, timeout))
+
+
 def run_chunk(exe, variant, profile, seed, start, count, prop, agg_lock_free):
     """Run indices [start, start+count) of a batch; survive worker deaths by resuming after the dead run."""
     res = {"runs": [], "viols": [], "crashes": [], "states": set(), "trans": set(), "cells": set(), "faults": []}
@@ -105,11 +138,7 @@ def run_chunk(exe, variant, profile, seed, start, count, prop, agg_lock_free):
         cmd = (VALGRIND if "valgrind" in variant else []) + [exe, "--data", DATA, "--batch", "--seed", str(seed), "--profile", profile, "--start", str(nxt), "--count", str(end - nxt)]
         env = dict(os.environ)
         env["ASAN_OPTIONS"] = "exitcode=77:detect_leaks=0:allocator_may_return_null=1"
-        try:
-            p = subprocess.run(cmd, stdout=subprocess.PIPE, stderr=subprocess.PIPE, text=True, errors="replace", env=env, timeout=1800)
-            out, err, rc = p.stdout, p.stderr, p.returncode
-        except subprocess.TimeoutExpired as e:
-            out, err, rc = (e.stdout or b"").decode(errors="replace") if isinstance(e.stdout, bytes) else (e.stdout or ""), "", -9
+        out, err, rc = run_group(cmd, env, 1200)
         last_start = None
         ended = False
         crash_seen = False
@@ -174,7 +203,7 @@ def trace_death(exe, seed, profile, idx):
     op, owner = "?", "C19"
     try:
         sim_emit_plan(exe, seed, profile, idx, path)
-        p = subprocess.run([exe, "--data", DATA, "--replay", path, "--trace"], stdout=subprocess.PIPE, stderr=subprocess.DEVNULL, text=True, errors="replace", env=env, timeout=300)
+        p = run_cmd([exe, "--data", DATA, "--replay", path, "--trace"], 300)
         for line in p.stdout.split("\n"):
             m = re.match(r"^step \d+ client=\S+ (\w+)", line)
             if m:
@@ -211,7 +240,7 @@ def minimise_with_fallback(exe, cands, planf, minf, extra):
                 continue
             sim_emit_plan(exe, v["batchseed"], v["profile"], v["idx"], planf, hist)
             vg = "valgrind" in v["variant"]
-            r = subprocess.run(wrap(v["variant"], [exe, "--data", DATA, "--minimise", planf] + extra + (["--budget", "40"] if vg else []) + ["--variant", v["variant"], "-o", minf]), stdout=subprocess.PIPE, stderr=subprocess.PIPE, text=True, errors="replace")
+            r = run_cmd(wrap(v["variant"], [exe, "--data", DATA, "--minimise", planf] + extra + (["--budget", "40"] if vg else []) + ["--variant", v["variant"], "-o", minf]), 2400)
             if vg and os.path.exists(minf) and "MINIMISED" in r.stdout:
                 r.returncode = 0  # the minimiser itself exits 78 under memcheck when its forked probes reported errors
             last = r
@@ -223,7 +252,7 @@ def minimise_with_fallback(exe, cands, planf, minf, extra):
 def sim_replay(exe, path, variant=""):
     env = dict(os.environ)
     env["ASAN_OPTIONS"] = "exitcode=77:detect_leaks=0:allocator_may_return_null=1"
-    p = subprocess.run(wrap(variant, [exe, "--data", DATA, "--replay", path]), stdout=subprocess.PIPE, stderr=subprocess.PIPE, text=True, errors="replace", env=env, timeout=900)
+    p = run_cmd(wrap(variant, [exe, "--data", DATA, "--replay", path]), 900)
     run, viols, crash = None, [], None
     for line in p.stdout.split("\n"):
         if line.startswith("RUN "):
